@@ -15,7 +15,8 @@ def _split_event(e: Event, dt: datetime) -> Tuple[Event, Optional[Event]]:
         e2 = deepcopy(e)
         e1.duration = dt - e.timestamp
         e2.timestamp = dt
-        e2.duration = (e.timestamp + e.duration) - dt
+        # NOTE: event timestamps have millisecond resolution, e2 may start up to 1 ms before dt
+        e2.duration = (e.timestamp + e.duration) - e2.timestamp
         return (e1, e2)
     else:
         return (e, None)
@@ -76,6 +77,11 @@ def union_no_overlap(events1: List[Event], events2: List[Event]) -> List[Event]:
             _, e2_rest = _split_event(e2, e1_end)
             if e2_rest:
                 events2[e2_i] = e2_rest
+                if e2_rest.timestamp < e1_end:
+                    # e1 ends inside a millisecond, so the rest of e2 could not be moved past it:
+                    # move on from e1 instead (otherwise the same split is repeated over and over)
+                    events_union.append(e1)
+                    e1_i += 1
             else:
                 e2_i += 1
     events_union += events1[e1_i:]
